@@ -691,6 +691,8 @@ func main() {
 	c.Set("rule", "eras Alonzo..Dijkstra x language subset (era's V1..V3) x scripts in witness set / behind reference inputs (Babbage+) x redeemers {list, map (Conway+)} for non-empty language sets and {absent, empty list, empty map (Conway+)} for the empty set x datums {absent, one, two, present-empty} x {plain list, tag-258 set (Conway+)} x 2 cost-model tables x declared {correct, one bit off, absent}; plus every d=1 header re-encoding of the redeemers and of the datums container with declared {correct for the new bytes, bit off, absent, hash of the canonical bytes}; all rules of the era list are run, only script-data-hash results are read; distinct = case tuple + declared kind; oracle = own hashScriptIntegrity + own language-views encoder")
 	c.Assume("blake2b-256 / ed25519 trusted; script bytes, key and txids are representatives (scripts are never executed for this property)")
 	c.Assume("'languages used' = languages of the Plutus scripts that lock an input of the transaction; every such script is supplied (witness or reference) and has a spend redeemer, so 'used', 'needed' and 'present' coincide in the generated transactions")
+	// free-running -race pass: concurrent callers on their own inputs (state the library shares between calls)
+	c.RaceAudit("c31")
 	c.Finish()
 }
 
